@@ -4,6 +4,8 @@ REGISTRY = {}
 
 def register(prop, explanation, assumptions=(), exhaustive=None):
     def deco(fn):
+        if not fn.__name__.startswith("check_"):
+            raise RuntimeError("@register(%s) decorates %s: a helper was inserted between the decorator and the check function" % (prop, fn.__name__))
         REGISTRY[prop] = (fn, explanation, list(assumptions), exhaustive)
         return fn
     return deco
